@@ -26,6 +26,7 @@ RULE = ("cases = (key list, alphabet, op sequence) drawn by Hypothesis, plus eve
         "key sets (a wildcard entry next to a concrete sibling) and lookups leaving >=1 key unbound are compared; "
         "distinct = distinct canonical JSON of the case.")
 BUDGET = {"quick": (4, 700), "thorough": (16, 20000)}
+FUZZ = (8, 3000)     # coverage-guided tier (thorough): processes, libFuzzer runs per process
 EXHAUSTIVE_NOTE = {"quick": "all insert sequences of length <=3 over 2 keys x 2 values (584) x all 9+16 lookups",
                    "thorough": "as quick, plus all insert sequences of length <=2 over 3 keys x 2 values and "
                                "length <=4 over 2 keys x 2 values"}
@@ -40,14 +41,16 @@ STRANGER = 7  # a value index that is never inserted
 @st.composite
 def _case2(draw):
     """Draw the key list first, then ops that may re-key; bindings always use the keys current at that op."""
-    nkeys = draw(st.integers(1, 4))
+    # (ranges start at 0 and are shifted afterwards: Hypothesis 6.168's byte-string provider, which the coverage-guided
+    # tier drives through fuzz_one_input, cannot satisfy st.integers(lo, hi) with lo > 0 and a narrow range)
+    nkeys = 1 + draw(st.integers(0, 3))
     keys0 = draw(st.lists(st.integers(0, 9), min_size=nkeys, max_size=nkeys, unique=True))
-    nvals = draw(st.integers(2, 3 if nkeys <= 3 else 2))
+    nvals = 2 + draw(st.integers(0, 1 if nkeys <= 3 else 0))
     wrap = draw(st.booleans())
     extra = draw(st.sampled_from([False, False, True]))
     cur = list(keys0)
     ops = []
-    for _ in range(draw(st.integers(1, 8))):
+    for _ in range(1 + draw(st.integers(0, 7))):
         kind = draw(st.sampled_from(["ins"] * 12 + ["clear", "rekey"]))
         if kind == "ins":
             ks = draw(st.lists(st.sampled_from(cur), min_size=1, max_size=len(cur), unique=True))
